@@ -216,12 +216,12 @@ PROPS["C04"]["claim"] = {
 }
 PROPS["C08"]["claim"] = {
     "text": "Theorems (Properties/C08.v) on the thrift model: EVERY byte string decodes to a value or an error for either protocol and any target type - the bitset index check and the collection-size handling can never panic, fuel is linear in the input; "
-            "every proper prefix of a valid encoding yields io.EOF (empty) or an unexpected-EOF class error; trailing bytes are reported. Unknown-field skipping, MissingField and allocation behaviour are decided by correspondence with property oracles (wider structs, removed required fields, runs under an address-space limit).",
-    "note": "Trusted as C04. Memory allocation is observed (ulimit -v), not modelled; TypeMismatch in strict mode is covered by the model's decoder but has no theorem yet.",
+            "every proper prefix of a valid encoding yields io.EOF (empty) or an unexpected-EOF class error; trailing bytes are reported. Unknown fields (t_unknown_fields: any number of undeclared fields of any type at every field boundary of the top-level struct, both protocols, decode to the narrow result), MissingField (t_missing_field, t_absent_optional) and wrong wire types (t_mismatch_strict: TypeMismatch in strict mode; t_mismatch_skipped, t_mismatch_list: skipped entirely in non-strict mode, the other fields unaffected) are theorems too. Allocation behaviour (runs under an address-space limit), unknown fields inside nested structs and the set/map mismatch variants are decided by correspondence.",
+    "note": "Trusted as C04. Memory allocation is observed (ulimit -v), not modelled. Two genuine defects were found through this property's model and repaired (non-strict type mismatch did not skip the value / the collection items).",
 }
 PROPS["C13"]["claim"] = {
     "text": "Theorems (Properties/C13.v): the package's encoder model equals a transcription of the Apache Thrift binary and compact protocol specifications for every supported type and value once three recorded deviations are switched on in the transcription "
-            "(binary type codes, 3-byte binary stop field, big-endian compact doubles), and is refuted without them by concrete witnesses. Any other byte-level deviation breaks the theorem or the correspondence.",
+            "(binary type codes, 3-byte binary stop field, big-endian compact doubles), and is refuted without them by concrete witnesses. Any other byte-level deviation breaks the theorem or the correspondence. Decode side (t_alt_accept): EVERY alternative conformant compact encoding - any combination of long and short forms of field and list/set headers - of every value of every supported type is accepted with the result obtained from Marshal's own bytes; the harness decodes such encodings with the real readers.",
     "note": "Trusted as C04, plus the specification transcription (Thrift/Spec.v spec_enc and harness specEnc), written from memory of the specification documents: no Apache Thrift implementation is available offline; this is the weakest oracle of the development. Reader acceptance of alternative conformant encodings (long forms) is covered by the decoder theorems of C04/C08 only for the package's own output.",
 }
 
